@@ -104,6 +104,10 @@ IntegrityMenu(ms) ==
 MC_DeliveryMenu(snt) ==
     CASE Menu = "none" -> {} [] Menu = "small" -> SmallMenu(1..MaxSeals) [] Menu = "full" -> FullMenu(1..MaxSeals)
       [] Menu = "integrity" -> IntegrityMenu(snt["s"])
+      \* C13: arbitrary input of every length class at the opening entry points
+      [] Menu = "lengths" -> {D("garbage", "s", a, t, n) : a \in {0, 1, 70000}, t \in {0, 16},
+                                                            n \in {0, 1, 15, 16, 17, 31, 32, 33, 63, 64, 65, 65535, 65536, 70000}}
+                             \cup {D("msg", "s", i, 0, 0) : i \in 1..MaxSeals}
       [] Menu = "inorder" -> {D("msg", "s", i, 0, 0) : i \in 1..MaxSeals}
 
 \* export lengths around every interesting bound: 0, 1, Nh, 255*Nh (the HKDF limit), 2^16
